@@ -2,6 +2,7 @@ package stanza
 
 import (
 	"encoding/xml"
+	"errors"
 	"strconv"
 	"time"
 )
@@ -17,7 +18,8 @@ type MucPresence struct {
 	History  History  `xml:"http://jabber.org/protocol/muc history,omitempty"`
 }
 
-const timeLayout = "2006-01-02T15:04:05Z"
+// XEP-0082 DateTime in UTC; the fraction of a second is written only when there is one
+const timeLayout = "2006-01-02T15:04:05.999999999Z"
 
 // History implements XEP-0045: Multi-User Chat - 19.1
 type History struct {
@@ -122,6 +124,11 @@ func (h History) MarshalXML(e *xml.Encoder, start xml.StartElement) (err error) 
 	}
 
 	if !h.Since.IsZero() {
+		// four-digit years only (as time.Time.MarshalText): anything else is written in a form
+		// no XEP-0082 reader, this library's included, accepts
+		if y := h.Since.UTC().Year(); y < 0 || y > 9999 {
+			return errors.New("stanza: history since: year outside of range [0,9999]")
+		}
 		attr := xml.Attr{
 			Name:  xml.Name{Local: "since"},
 			Value: h.Since.UTC().Format(timeLayout),
